@@ -328,7 +328,7 @@ func (ro *Roles) noLostUpdate(r *Report, rule string) {
 // ---------------------------------------------------------------------------------
 // dequeue loop rules
 
-func (ro *Roles) dequeueLoop(r *Report, which map[string]bool) {
+func (ro *Roles) dequeueLoopOld(r *Report, which map[string]bool) {
 	w := ro.w
 	if !ro.need(r, "dequeue", map[string]*ssa.Function{"start function": ro.Start, "dequeue decision": ro.DequeueDecision}) {
 		return
